@@ -81,8 +81,28 @@ class _AIter:
         return gen()
 
 
+VIA_PROXY_HEADERS = [("X-A", "proxy-default"), ("X-P", "p")]     # collides (case-insensitively) with two alphabet symbols
+VIA_TYPES = [c for c in scen.CONN_TYPES if c not in ("h11", "h2pk")]
+
+
+def via_cases(tier):
+    """Request shapes sent over the ten other connection types (TLS, negotiated protocol, forward / tunnel / SOCKS proxies)."""
+    if tier != "quick":
+        yield from cases("quick")
+        return
+    for m in ("GET", "POST", "HEAD", "GE T"):
+        for t in range(len(TARGETS)):
+            for hs in header_sequences(1):
+                for b in ("none", "bytes", "iter:a,bc", "iter:"):
+                    names = [HEADER_ALPHABET[i][0].lower() for i in hs]
+                    if b == "none" and ("content-length" in names or "transfer-encoding" in names):
+                        continue
+                    yield (m, t, hs, b)
+
+
 def run_case(case, proto, variant):
-    """-> list of violation dicts for this case (sent twice on one pool)."""
+    """-> list of violation dicts for this case (sent twice on one pool).  `proto` is "h1" / "h2" (plain direct connection)
+    or the name of one of the other connection types."""
     m, t, hs, b = case
     path, target_ext = TARGETS[t]
     chunks, body = body_of(b)
@@ -92,12 +112,17 @@ def run_case(case, proto, variant):
         if v is None:
             v = str(len(body or b""))
         headers.append((k, v))
-    ct = "h11" if proto == "h1" else "h2pk"
-    topo = scen.Topology(scen.CONN_TYPES[ct])
+    ct = {"h1": "h11", "h2": "h2pk"}.get(proto, proto)
+    via = ct if ct != {"h1": "h11", "h2": "h2pk"}.get(proto) else None
+    ctd = scen.CONN_TYPES[ct]
+    proto = ctd["proto"]
+    scheme = ctd["scheme"]
+    forwarded = ctd["proxy"] in ("http", "https") and scheme == "http"
+    topo = scen.Topology(ctd)
     w = SeqWorld(Chooser([]), topo.router, variant=variant)
     w.env.fp = None
-    pool = scen.make_pool(ct, w.backend, variant)
-    url = "http://a.example" + path
+    pool = scen.make_pool(ct, w.backend, variant, **({"proxy_headers": VIA_PROXY_HEADERS} if forwarded else {}))
+    url = f"{scheme}://a.example" + path
     ext = {"target": target_ext} if target_ext is not None else {}
     results = []
 
@@ -129,10 +154,12 @@ def run_case(case, proto, variant):
 
     out = []
     sig = {"harness": "serialise", "proto": proto}
+    if via:
+        sig["ct"] = via
 
     def bad(kind, msg):
-        out.append({"oracle": "C03." + kind, "message": f"{msg} | proto={proto} variant={variant} method={m!r} target={TARGETS[t]} headers={headers} body={b}",
-                    "signature": dict(sig, kind=kind), "case": {"case": [m, t, list(hs), b], "proto": proto, "variant": variant}})
+        out.append({"oracle": "C03." + kind, "message": f"{msg} | proto={proto} ct={ct} variant={variant} method={m!r} target={TARGETS[t]} headers={headers} body={b}",
+                    "signature": dict(sig, kind=kind), "case": {"case": [m, t, list(hs), b], "proto": via or proto, "variant": variant}})
 
     if res[0] != "ok":
         bad("harness-" + res[0], f"program did not finish: {res}")
@@ -149,6 +176,11 @@ def run_case(case, proto, variant):
     exp_body = body or b""
     enames = [k.lower() for k, _ in exp]
     framed = b"content-length" in enames or b"transfer-encoding" in enames
+    if forwarded:
+        # through a forwarding proxy: absolute-form target, the proxy's headers beneath the caller's (C11 judges the proxy
+        # side of this; here the caller's own header list must still arrive intact and in order)
+        tb = f"{scheme}://a.example".encode() + tb
+    proxy_only = [(k.encode(), v.encode()) for k, v in VIA_PROXY_HEADERS if k.lower().encode() not in enames] if forwarded else []
 
     if proto == "h1":
         conns = topo.all_h1_conns()
@@ -159,6 +191,9 @@ def run_case(case, proto, variant):
                 if r_[0] != "exc" or not isinstance(r_[1], httpcore.LocalProtocolError):
                     bad("illegal-not-rejected", f"illegal request head gave {r_[0]}:{exc_class(r_[1]) if r_[0] == 'exc' else r_[1]} instead of LocalProtocolError")
             written = sum(len(op.args["data"]) for op in w.net.ledger if op.kind == "write")
+            if via and ctd["proxy"]:
+                # proxy negotiation bytes are legitimate; what counts is what reached the HTTP peer behind / inside the proxy
+                written = sum(len(c.parser.buf) + len(c.parser.requests) + len(c.parser.errors) for c in conns)
             if written:
                 bad("illegal-bytes-written", f"{written} bytes written for a request that must be rejected: {bytes(w.net.transports[0].written)[:80]!r}")
             return out
@@ -177,6 +212,12 @@ def run_case(case, proto, variant):
             if r.method != mb or r.target != tb:
                 bad("request-line", f"{which}: wire has {r.method!r} {r.target!r}")
             wire_nohost = [(k, v) for k, v in r.headers if k.lower() != b"host"]
+            for ph in proxy_only:
+                # where the proxy's own (not overridden) headers sit is C11's business; each must be there once
+                if ph in wire_nohost:
+                    wire_nohost.remove(ph)
+                else:
+                    bad("headers", f"{which}: proxy header {ph} missing from the forwarded request: {r.headers}")
             exp_nohost = [(k, v) for k, v in exp if k.lower() != b"host"]
             if wire_nohost != exp_nohost:
                 bad("headers", f"{which}: wire headers {r.headers} expected {exp} (Host may lead)")
@@ -212,7 +253,7 @@ def run_case(case, proto, variant):
         npseudo = len(pseudo)
         if [k for k, _ in s.headers[:npseudo]] != [k for k, _ in pseudo]:
             bad("h2-pseudo-order", f"{which}: pseudo-headers not first: {s.headers}")
-        if sorted(pseudo) != sorted([(b":method", mb), (b":scheme", b"http"), (b":authority", authority), (b":path", tb)]):
+        if sorted(pseudo) != sorted([(b":method", mb), (b":scheme", scheme.encode()), (b":authority", authority), (b":path", tb)]):
             bad("h2-pseudo", f"{which}: pseudo-headers {pseudo}")
         if regular != exp_regular:
             bad("headers", f"{which}: h2 headers {regular} expected {exp_regular}")
@@ -224,12 +265,12 @@ def run_case(case, proto, variant):
 
 
 def _chunk_job(args):
-    chunk, = args
+    chunk, protos = args
     out = []
     classes = set()
     n = 0
     for case in chunk:
-        for proto in ("h1", "h2"):
+        for proto in protos:
             for variant in ("sync", "async"):
                 n += 1
                 v = run_case(case, proto, variant)
@@ -249,11 +290,17 @@ def check(tier="quick", seed=0, workers=None, only=None):
         allc = allc[: int(only)] if only.isdigit() else allc
     nw = workers or min(16, os.cpu_count() or 1)
     size = max(1, len(allc) // (nw * 8))
-    chunks = [(allc[i:i + size],) for i in range(0, len(allc), size)]
+    chunks = [(allc[i:i + size], ("h1", "h2")) for i in range(0, len(allc), size)]
+    viac = list(via_cases(tier)) if not only else []
+    size = max(1, len(viac) // (nw * 8))
+    n_direct = len(chunks)
+    chunks += [(viac[i:i + size], tuple(VIA_TYPES)) for i in range(0, len(viac), size)]
     total, viols, classes = 0, [], set()
+    via_runs = 0
     with mp.get_context("fork").Pool(nw) as pool:
-        for n, v, cl in pool.imap(_chunk_job, chunks):
+        for j, (n, v, cl) in enumerate(pool.imap(_chunk_job, chunks)):
             total += n
+            via_runs += n if j >= n_direct else 0
             viols += v
             classes |= cl
     from . import conc, common
@@ -265,9 +312,12 @@ def check(tier="quick", seed=0, workers=None, only=None):
     cov = {
         "evaluations": total, "distinct_nontrivial": len(classes), "exhaustive": True,
         "rule": ("full product method x target x header sequence (length <= %d over an 8-symbol alphabet incl. illegal names/values) x body form, "
-                 "each on HTTP/1.1 and HTTP/2, sync and async, sent twice per pool (first use + reuse); distinct class = (illegal method?, target, header-name set, body form, protocol, violated?)"
+                 "each on HTTP/1.1 and HTTP/2, sync and async, sent twice per pool (first use + reuse); a sub-product of the shapes again over the ten other "
+                 "connection types (TLS, ALPN-negotiated, forward / tunnel / SOCKS proxies); distinct class = (illegal method?, target, header-name set, body form, protocol, violated?)"
                  % (2 if tier == "quick" else 3)),
         "samples": samples, "request_shapes": len(allc), "resend_scenarios": cinfo,
+        "other_connection_types": {"types": VIA_TYPES, "request_shapes": len(viac), "runs": via_runs,
+                                   "note": "forward proxy configured with proxy headers that collide with the header alphabet"},
     }
     return {"level": "exploration", "coverage": cov, "violations": viols,
             "assumptions": ["legality judged by the RFC 9110/9112 token / field-value / request-target grammars written out in this file",
